@@ -37,7 +37,8 @@ const C_DECOY: &[&str] = &["const char *d{n} = \"{}\";", "const char *e{n} = \"/
 pub const LANGS: &[Lang] = &[
     Lang {
         id: "bash",
-        line: &["#", "##"],
+        // (`#!` below the first line - which the header occupies - is an ordinary comment, not a shebang)
+        line: &["#", "##", "#!"],
         block: None,
         nests: false,
         star: false,
